@@ -296,9 +296,16 @@ class CallMixin:
                 if r.sub:
                     t = z3.Int(fresh_name("exc"))
                     s2.assume(z3.And(t >= 0, t < len(self.uni.names), self.uni.subclass_term(t, r.cls)))
-                    self.raise_in(s2, VExc(t, {}))
+                    xv = VExc(t, {"from_callee": c.target})
                 else:
-                    self.raise_in(s2, self.mk_exc(r.cls))
+                    xv = self.mk_exc(r.cls, from_callee=c.target)
+                if c.exc_ensures:      # exceptional postconditions of the callee hold for what it raises (seen from inside the callee)
+                    cxe = CallCtx(self, amap, entry, s2, exc=VExc(xv.tidx, {}))
+                    for (_l, e) in c.exc_ensures:
+                        s2.assume(self._b(e(cxe)))
+                    if not self.feasible(s2.pc):
+                        continue
+                self.raise_in(s2, xv)
         if c.may_raise_any:
             self.exc_any(st.fork(), f"{self.loc(node)} {c.target}")
         ctx = CallCtx(self, amap, entry, st)
